@@ -695,6 +695,24 @@ func (x *Exec) callContract(st *State, ins ssa.Instruction, fc *FuncContract, ca
 	var rvals []Value
 	for i := 0; i < rs.Len(); i++ {
 		v := st.freshValue("r$"+label+"$"+rnames[i], rs.At(i).Type())
+		// a pure function whose value has a name in the specifications (uninterp fn_<Name>):
+		// equal arguments give equal results
+		if sf, ok := x.P.CS.Specs["fn_"+fc.Name]; ok && fc.Pure && sf.Uninterp && rs.Len() == 1 && len(args) == len(sf.Params) {
+			var ts []*Term
+			okArgs := true
+			for k, a := range args {
+				sc, isSc := x.coerce(st, a, ptypes[k]).(Scalar)
+				if !isSc {
+					okArgs = false
+					break
+				}
+				ts = append(ts, sc.T)
+			}
+			if okArgs {
+				v = Scalar{App("spec$"+sf.Name, st.A.SortOf(rs.At(i).Type()), ts...), rs.At(i).Type()}
+				st.assumeTypeInv(v, rs.At(i).Type())
+			}
+		}
 		rvals = append(rvals, v)
 	}
 	post := map[string]Value{}
@@ -779,11 +797,7 @@ func (x *Exec) applyModifies(st *State, env *Env, fc *FuncContract, args []Value
 		case e.Kind == "ident" && e.Name == "heap":
 			st.havocAllHeap()
 		case e.Kind == "ident" && e.Name == "maps":
-			for k, h := range st.Heap {
-				if strings.HasPrefix(k, "map:") {
-					st.Heap[k] = Fresh("H$"+k, h.Sort)
-				}
-			}
+			st.havocHeapWhere(func(k string) bool { return strings.HasPrefix(k, "map:") })
 		case e.Kind == "ident" && e.Name == "allmem":
 			st.havocAllMem()
 		default:
@@ -1030,7 +1044,7 @@ func (x *Exec) checkFrameAgainst(st, base *State, kind, prefix string, ins ssa.I
 		h := st.Heap[k]
 		h0, ok := base.Heap[k]
 		if !ok {
-			h0 = Var("H0$"+k, h.Sort)
+			h0 = base.lazyVersion(false, k, h.Sort)
 		}
 		if h == h0 || frameExempt(k) || strings.HasPrefix(k, "global:") || x.keyIsProtected(k) {
 			continue
@@ -1056,7 +1070,7 @@ func (x *Exec) checkFrameAgainst(st, base *State, kind, prefix string, ins ssa.I
 		m := st.Mems[k]
 		m0, ok := base.Mems[k]
 		if !ok {
-			m0 = Var("Mem0$"+k, m.Sort)
+			m0 = base.lazyVersion(true, k, m.Sort)
 		}
 		if m == m0 {
 			continue
@@ -1079,55 +1093,85 @@ func (x *Exec) havocFramed(st *State, heapKeys []string, allHeap bool, memKeys [
 	fs := x.frame()
 	A := st.A
 	entryBound := x.entry.allocBound()
-	if allHeap {
-		heapKeys = heapKeys[:0]
-		for k := range st.Heap {
-			heapKeys = append(heapKeys, k)
+	hk := append([]string(nil), heapKeys...)
+	hcovers := func(k string) bool {
+		if allHeap {
+			return true
 		}
-		sort.Strings(heapKeys)
+		for _, pk := range hk {
+			if keyUnder(k, pk) {
+				return true
+			}
+		}
+		return false
 	}
-	done := map[string]bool{}
-	for _, pk := range heapKeys {
-		for k, h := range st.Heap {
-			if done[k] || !(allHeap && k == pk || !allHeap && keyUnder(k, pk)) {
-				continue
+	hconstrain := func(s *State, k string, h, nh *Term) {
+		if !fs.all && !frameExempt(k) && !strings.HasPrefix(k, "global:") && !x.keyIsProtected(k) {
+			o := Fresh("o", SInt)
+			may := fs.heapMayChange(k, o)
+			if !may.IsTrue() {
+				s.Assume(Forall([]*Term{o}, Implies(And(ILe(o, entryBound), Not(may)), Eq(Select(nh, o), Select(h, o))),
+					[]*Term{Select(nh, o)}))
 			}
-			done[k] = true
-			nh := Fresh("H$"+k, h.Sort)
-			if !fs.all && !frameExempt(k) && !strings.HasPrefix(k, "global:") && !x.keyIsProtected(k) {
-				o := Fresh("o", SInt)
-				may := fs.heapMayChange(k, o)
-				if !may.IsTrue() {
-					st.Assume(Forall([]*Term{o}, Implies(And(ILe(o, entryBound), Not(may)), Eq(Select(nh, o), Select(h, o))),
-						[]*Term{Select(nh, o)}))
-				}
+		}
+	}
+	if allHeap || len(hk) > 0 {
+		ev := st.logHavoc(false, hcovers, hconstrain)
+		keys := make([]string, 0, len(st.Heap))
+		for k := range st.Heap {
+			if ev.covers(k) {
+				keys = append(keys, k)
 			}
+		}
+		sort.Strings(keys)
+		for _, k := range keys {
+			h := st.Heap[k]
+			nh := ev.version(k, h.Sort)
+			hconstrain(st, k, h, nh)
 			st.Heap[k] = nh
 		}
 	}
-	if allMem {
-		memKeys = memKeys[:0]
-		for k := range st.Mems {
-			memKeys = append(memKeys, k)
+	mk := append([]string(nil), memKeys...)
+	mcovers := func(k string) bool {
+		if k == "str" {
+			return false
 		}
+		if allMem {
+			return true
+		}
+		for _, m := range mk {
+			if m == k {
+				return true
+			}
+		}
+		return false
 	}
-	sort.Strings(memKeys)
-	for _, k := range memKeys {
-		m, ok := st.Mems[k]
-		if !ok || k == "str" {
-			continue
-		}
-		nm := Fresh("Mem$"+k, m.Sort)
+	mconstrain := func(s *State, k string, m, nm *Term) {
 		if !fs.all {
 			id := Fresh("id", SInt)
 			j := Fresh("j", A.IdxSort())
 			may := fs.memMayChange(A, k, id, j)
 			if !may.IsTrue() {
-				st.Assume(Forall([]*Term{id, j}, Implies(And(ILe(IntC(0), id), ILe(id, entryBound), Not(may)),
+				s.Assume(Forall([]*Term{id, j}, Implies(And(ILe(IntC(0), id), ILe(id, entryBound), Not(may)),
 					Eq(Select(Select(nm, id), j), Select(Select(m, id), j))), []*Term{Select(Select(nm, id), j)}))
 			}
 		}
-		st.Mems[k] = nm
+	}
+	if allMem || len(mk) > 0 {
+		ev := st.logHavoc(true, mcovers, mconstrain)
+		keys := make([]string, 0, len(st.Mems))
+		for k := range st.Mems {
+			if mcovers(k) {
+				keys = append(keys, k)
+			}
+		}
+		sort.Strings(keys)
+		for _, k := range keys {
+			m := st.Mems[k]
+			nm := ev.version(k, m.Sort)
+			mconstrain(st, k, m, nm)
+			st.Mems[k] = nm
+		}
 	}
 	x.entryAssumptions(st, nil)
 }
